@@ -593,9 +593,12 @@ func (t *patricia[V]) RangeSize(lo, hi string) int {
 // that match the given pattern in which * matches any character.
 func (t *patricia[V]) Match(pattern string) []KeyValue[string, V] {
 	kvs := []KeyValue[string, V]{}
-	t._match(t.root, t.root.left, newBitPattern(pattern), func(n *patriciaNode[V]) {
-		kvs = append(kvs, KeyValue[string, V]{Key: n.key.String(), Val: n.val})
-	})
+
+	if t.root != nil {
+		t._match(t.root, t.root.left, newBitPattern(pattern), func(n *patriciaNode[V]) {
+			kvs = append(kvs, KeyValue[string, V]{Key: n.key.String(), Val: n.val})
+		})
+	}
 
 	return kvs
 }
